@@ -464,16 +464,9 @@ func runCaseC(cs caseC) (*resultC, error) {
 			if len(diffSnap(again, got)) == 0 {
 				res.NoopCalls += len(log.calls)
 			}
-			sort.Strings(log.calls)
-			for _, cl := range log.calls {
-				f := strings.Fields(cl) // verb Kind ns/name
-				obj := f[1]
-				if f[1] == "ServiceAccount" {
-					obj += "/" + f[2][strings.Index(f[2], "/")+1:]
-				}
-				res.Findings = append(res.Findings, finding{"C20/operator-repeated-deploy-writes call=" + f[0] + " object=" + obj,
-					fmt.Sprintf("a repeated Deploy of the unchanged configuration (%s) issued %d mutating calls although no object changes: %v", who, len(log.calls), log.calls)})
-			}
+			// Calls that leave every object semantically unchanged are counted (NoopCalls) but are not
+			// a finding: the statement requires that a repeated deployment leaves every object
+			// unchanged, not that it issues no API write (corrected false alarm, see DESIGN.md).
 		}
 		if dfs := diffSnap(again, got); len(dfs) > 0 {
 			res.Findings = append(res.Findings, finding{"C20/operator-repeated-deploy-changes-objects " + who, fmt.Sprintf("objects changed by a repeated Deploy: %v", dfs)})
